@@ -11,6 +11,7 @@ import (
 	"github.com/provenance-io/provenance/app"
 	"github.com/provenance-io/provenance/testutil/verifhooks"
 	"github.com/provenance-io/provenance/x/exchange"
+	markertypes "github.com/provenance-io/provenance/x/marker/types"
 )
 
 var (
@@ -72,6 +73,20 @@ func (e *feeEnv) execKeeper(ws []string) string {
 		addr := authtypes.NewModuleAddress("verif-csf").String()
 		var total sdk.Coins
 		var navs []exchange.NetAssetPrice
+		// navsrc=state: the net asset values are not carried in the request but looked up by the
+		// keeper (Keeper.GetNav) from the marker module, where the volume is a uint64
+		fromState := kvArg(ws, "navsrc") == "state"
+		addNav := func(assets, price sdk.Coin) string {
+			if fromState && assets.Amount.IsUint64() {
+				m := markertypes.NewEmptyMarkerAccount(assets.Denom, addr, nil)
+				if err := feeApp.MarkerKeeper.SetNetAssetValue(ctx, m, markertypes.NewNetAssetValue(price, assets.Amount.Uint64()), "verif"); err != nil {
+					return "err:setup-nav " + err.Error()
+				}
+				return ""
+			}
+			navs = append(navs, exchange.NetAssetPrice{Assets: assets, Price: price})
+			return ""
+		}
 		if f := mustInt(kvArg(ws, "fee")); !f.IsZero() {
 			total = total.Add(sdk.Coin{Denom: feeDenom, Amount: f})
 		}
@@ -83,18 +98,16 @@ func (e *feeEnv) execKeeper(ws []string) string {
 				p := strings.Split(ent, ":")
 				d := fmt.Sprintf("oth%d", i)
 				total = total.Add(sdk.Coin{Denom: d, Amount: mustInt(p[0])})
-				navs = append(navs, exchange.NetAssetPrice{
-					Assets: sdk.Coin{Denom: d, Amount: mustInt(p[2])},
-					Price:  sdk.Coin{Denom: conv, Amount: mustInt(p[1])},
-				})
+				if e := addNav(sdk.Coin{Denom: d, Amount: mustInt(p[2])}, sdk.Coin{Denom: conv, Amount: mustInt(p[1])}); e != "" {
+					return e
+				}
 			}
 		}
 		if !same {
 			nv := strings.Split(kvArg(ws, "nav"), ":")
-			navs = append(navs, exchange.NetAssetPrice{
-				Assets: sdk.Coin{Denom: conv, Amount: mustInt(nv[1])},
-				Price:  sdk.Coin{Denom: feeDenom, Amount: mustInt(nv[0])},
-			})
+			if e := addNav(sdk.Coin{Denom: conv, Amount: mustInt(nv[1])}, sdk.Coin{Denom: feeDenom, Amount: mustInt(nv[0])}); e != "" {
+				return e
+			}
 		}
 		req := &exchange.MsgMarketCommitmentSettleRequest{
 			Admin: addr, MarketId: mid,
